@@ -33,6 +33,61 @@ SEEDS = [
 ]
 
 NEAR_VALID = {
+    'continue_in_switch': 'unsigned char a; void main() { switch (a) { case 1: if (Y) continue; a = 2; } }',
+    'continue_in_switch2': 'unsigned char a; void main() { switch (a) { case 1: continue; } }',
+    'break_in_if': 'unsigned char a; void main() { if (a) break; }',
+    'break_cond_top': 'unsigned char a; void main() { if (a) { if (X) break; } }',
+    'void_to_y': 'char a; void f() { a = 1; } void main() { Y = f(); }',
+    'void_to_x': 'char a; void f() { a = 1; } void main() { X = f(); }',
+    'void_to_array': 'char a[2]; void f() { X = 1; } void main() { a[1] = f(); }',
+    'void_to_short': 'short s; void f() { X = 1; } void main() { s = f(); }',
+    'void_in_expr': 'char a; void f() { X = 1; } void main() { a = f() + 1; }',
+    'void_as_cond': 'char a; void f() { X = 1; } void main() { if (f()) a = 1; }',
+    'void_as_arg': 'char a; void f() { X = 1; } void g(char x) { a = x; } void main() { g(f()); }',
+    'literal_marker': 'char *s; void main() { s = @99@; }',
+    'literal_marker0': 'char *s; void main() { s = @0@; }',
+    'literal_marker_init': 'const char t[] = @7@;',
+    'inline_self': 'inline void step() { X--; step(); } void main() { X = 3; step(); }',
+    'inline_self_if': 'inline void step() { if (X) step(); X--; } void main() { step(); }',
+    'inline_mutual': 'inline void b(); inline void a() { X--; b(); } inline void b() { if (X) a(); } void main() { a(); }',
+    'inline_undefined': 'inline void a(); void main() { a(); }',
+    'recursion': 'void f() { X--; if (X) f(); } void main() { f(); }',
+    'goto_undefined': 'void main() { goto nowhere; }',
+    'goto_other_function': 'void f() { there: X = 1; } void main() { goto there; }',
+    'label_twice': 'void main() { l: X = 1; l: X = 2; }',
+    'case_twice': 'char a; void main() { switch (a) { case 1: X = 1; case 1: X = 2; } }',
+    'default_twice': 'char a; void main() { switch (a) { default: X = 1; default: X = 2; } }',
+    'return_value_in_void': 'void f() { return 1; } void main() { f(); }',
+    'return_nothing': 'char f() { return; } void main() { X = f(); }',
+    'too_many_args': 'void f(char a) { X = a; } void main() { f(1, 2); }',
+    'too_few_args': 'void f(char a, char b) { X = a; } void main() { f(1); }',
+    'call_variable': 'char v; void main() { v(); }',
+    'index_function': 'void f() { } void main() { X = f[1]; }',
+    'assign_function': 'void f() { } void main() { f = 1; }',
+    'assign_const': 'const char c = 1; void main() { c = 2; }',
+    'assign_array_name': 'char a[2]; void main() { a = 1; }',
+    'deref_char': 'char a; void main() { X = *a; }',
+    'addr_of_register': 'char *p; void main() { p = &X; }',
+    'sizeof_call': 'void f() { } void main() { X = sizeof(f()); }',
+    'nested_function': 'void main() { void g() { } }',
+    'redefined_function': 'void f() { } void f() { } void main() { }',
+    'redefined_variable': 'char a; char a; void main() { }',
+    'param_shadows_global': 'char a; void f(char a) { X = a; } void main() { f(1); }',
+    'huge_array': 'char a[70000]; void main() { a[0] = 1; }',
+    'negative_array': 'char a[-1]; void main() { }',
+    'zero_array': 'char a[0]; void main() { }',
+    'array_init_too_long': 'const char a[2] = {1, 2, 3}; void main() { }',
+    'string_too_long': 'const char a[2] = "abc"; void main() { }',
+    'shift_by_variable': 'char a, b; void main() { a = a << b; }',
+    'shift_huge': 'char a; void main() { a = a << 40; a = 1 << 40; }',
+    'shift_negative': 'char a; void main() { a = a << -1; a = 1 >> -1; }',
+    'ternary_void': 'char a; void f() { } void main() { a = a ? f() : 1; }',
+    'comma_void': 'char a; void f() { } void main() { a = (f(), 1); }',
+    'load_store_misuse': 'char a; void main() { load(); store(); strobe(); csleep(); }',
+    'csleep_variable': 'char a; void main() { csleep(a); }',
+    'csleep_huge': 'void main() { csleep(100000); csleep(-5); csleep(1); csleep(0); }',
+    'asm_nonliteral': 'char a; void main() { asm(a); }',
+    'asm_size_negative': 'void main() { asm("nop", -1); }',
     'string_subscript': 'char a; const char tab[] = {1}; void main() { a = tab["s"]; }',
     'empty': '',
     'comment_only': '/* nothing */\n',
@@ -136,9 +191,24 @@ def mutate(rng, src):
     pool = ['(', ')', '{', '}', ';', ',', '=', '+', '*', '&', '[', ']', '0', '1', '255', '256', '65536', '4294967296', '-1',
             'char', 'short', 'void', 'if', 'else', 'for', 'while', 'return', 'X', 'Y', 'main', 'zz', '"s"', "'c'", '#define', '#if',
             '#endif', 'inline', 'const', 'sizeof', 'case', 'default', 'goto', '?', ':', '!', '~', '/', '0x', '08', '<<', '++']
-    k = rng.randrange(6)
+    k = rng.randrange(9)
     i = rng.randrange(len(toks))
-    if k == 0:
+    idents = [j for j, t in enumerate(toks) if re.fullmatch(r'[A-Za-z_][A-Za-z_0-9]*', t)
+              and t not in ('char', 'short', 'void', 'if', 'else', 'for', 'while', 'do', 'return', 'unsigned', 'signed', 'const', 'inline',
+                            'switch', 'case', 'default', 'break', 'continue', 'goto', 'sizeof', 'int', 'superchip')]
+    if k >= 6 and idents:
+        # kind confusion: an identifier used where a name of another kind is expected (function, array,
+        # short, constant, register, label, undeclared), or an expression replaced by a void call
+        i = rng.choice(idents)
+        names = sorted(set(toks[j] for j in idents)) + ['X', 'Y', 'main', 'undeclared_name']
+        if k == 6:
+            toks[i] = rng.choice(names)
+        elif k == 7:
+            toks[i] = rng.choice([n + '()' for n in names] + [n + '[1]' for n in names] + ['&' + n for n in names] +
+                                 ['*' + n for n in names] + ['sizeof(' + n + ')' for n in names] + [n + '++' for n in names])
+        else:
+            toks[i] = rng.choice(['"str"', "'c'", '@3@', '-' + toks[i], '(' + toks[i] + ',' + rng.choice(names) + ')'])
+    elif k == 0:
         del toks[i]
     elif k == 1:
         toks.insert(i, toks[i])
